@@ -32,7 +32,14 @@ Ids(S) == {f.id : f \in S}
 Scale2(F) == {[f EXCEPT !.t0 = 2 * f.t0, !.t1 = 2 * f.t1] : f \in F}
 
 VARIABLE F
-Init == F \in (IF NSample = 0 THEN Populations ELSE RandomSubset(NSample, Populations))
+\* sampling: populations of three or four files are drawn as the union of two smaller populations (the full set of
+\* populations exceeds what TLC can enumerate for T = 12: 108^3 > 10^6)
+Pop1 == {{a} : a \in Pool}
+Pop2 == {{a, b} : a \in Pool, b \in Pool}
+Root == CHOOSE r \in 1..2000 : r * r >= NSample /\ (r - 1) * (r - 1) < NSample
+Sampled == IF MaxFiles <= 2 THEN RandomSubset(NSample, Populations)
+           ELSE {x \cup y : x \in RandomSubset(Root, Pop2), y \in RandomSubset(Root, IF MaxFiles = 3 THEN Pop1 ELSE Pop2)}
+Init == F \in (IF NSample = 0 THEN Populations ELSE Sampled)
 Next == UNCHANGED F
 
 Emit == PrintT(<<"CASE", ToJson([
